@@ -209,6 +209,24 @@ pub mod raw {
             "vp_ris_ct_eq" => out.push(vp_ris_ct_eq(&rd::<EP>(a[0]), &rd::<EP>(a[1]))),
             "vp_ris_elligator" => wr(&vp_ris_elligator(&rd::<FE>(a[0])), out),
             "vp_ris_from_uniform_bytes" => wr(&vp_ris_from_uniform_bytes(&rd::<B64>(a[0])), out),
+            // ---- byte-level group entry points for the replay of layer-G counterexamples: points travel compressed, scalars as raw bytes
+            "g_ed_mul" | "g_mul_base" | "g_vartime_double" | "g_multiscalar" | "g_vartime_multiscalar" => {
+                use crate::edwards::CompressedEdwardsY as C; use crate::traits::{MultiscalarMul, VartimeMultiscalarMul};
+                let pt = |b: &[u8]| C(rd::<B32>(b)).decompress().expect("replay point decodes");
+                let sc = |b: &[u8]| scalar_raw(rd::<B32>(b));
+                let r: EdwardsPoint = match name {
+                    "g_ed_mul" => &pt(a[0]) * &sc(a[1]),
+                    "g_mul_base" => EdwardsPoint::mul_base(&sc(a[0])),
+                    "g_vartime_double" => EdwardsPoint::vartime_double_scalar_mul_basepoint(&sc(a[0]), &pt(a[1]), &sc(a[2])),
+                    _ => {
+                        let n = a[0].len() / 32;
+                        let ss: Vec<Scalar> = (0..n).map(|i| sc(&a[0][32 * i..32 * i + 32])).collect();
+                        let ps: Vec<EdwardsPoint> = (0..n).map(|i| pt(&a[1][32 * i..32 * i + 32])).collect();
+                        if name == "g_multiscalar" { EdwardsPoint::multiscalar_mul(ss.iter(), ps.iter()) } else { EdwardsPoint::vartime_multiscalar_mul(ss.iter(), ps.iter()) }
+                    }
+                };
+                wr(&r.compress().0, out)
+            }
             _ => return false,
         }
         }
@@ -235,6 +253,10 @@ use crate::traits::{MultiscalarMul, VartimeMultiscalarMul};
 #[no_mangle] #[inline(never)] pub fn vp_g_straus_ct_2(s: &[Scalar; 2], p: &[EdwardsPoint; 2]) -> EdwardsPoint { ssm::straus::Straus::multiscalar_mul(s.iter(), p.iter()) }
 #[cfg(feature = "alloc")]
 #[no_mangle] #[inline(never)] pub fn vp_g_straus_ct_3(s: &[Scalar; 3], p: &[EdwardsPoint; 3]) -> EdwardsPoint { ssm::straus::Straus::multiscalar_mul(s.iter(), p.iter()) }
+// public variable-time entry points (dispatching): vartime double-base and vartime multiscalar (Straus below 190 points, Pippenger above)
+#[no_mangle] #[inline(never)] pub fn vp_g_vartime_double_pub(a: &Scalar, p: &EdwardsPoint, b: &Scalar) -> EdwardsPoint { EdwardsPoint::vartime_double_scalar_mul_basepoint(a, p, b) }
+#[cfg(feature = "alloc")]
+#[no_mangle] #[inline(never)] pub fn vp_g_vartime_multiscalar_mul(s: &[Scalar], p: &[EdwardsPoint]) -> EdwardsPoint { use crate::traits::VartimeMultiscalarMul; EdwardsPoint::vartime_multiscalar_mul(s.iter(), p.iter()) }
 // the PUBLIC constant-time entry point on slices of any length (dispatch included): C04 / C14
 #[cfg(feature = "alloc")]
 #[no_mangle] #[inline(never)] pub fn vp_g_multiscalar_mul(s: &[Scalar], p: &[EdwardsPoint]) -> EdwardsPoint { use crate::traits::MultiscalarMul; EdwardsPoint::multiscalar_mul(s.iter(), p.iter()) }
